@@ -680,10 +680,21 @@ def run(repo, rep, tier):
         r5.sites += 1
         body = f.body
         idx_raw = idx_parse = None
+        # the variable that receives the reply bytes from wbem_request()
+        reply_vars = set()
+        for s in body:
+            if isinstance(s, ast.Assign) and isinstance(s.value, ast.Call) \
+                    and dotted(s.value.func) == 'wbem_request':
+                t0 = s.targets[0]
+                if isinstance(t0, ast.Tuple) and t0.elts and \
+                        isinstance(t0.elts[0], ast.Name):
+                    reply_vars.add(t0.elts[0].id)
+                elif isinstance(t0, ast.Name):
+                    reply_vars.add(t0.id)
         for i, s in enumerate(body):
             if isinstance(s, ast.Assign) and \
                     norm(s.targets[0]) == 'self._last_raw_reply' and \
-                    norm(s.value) == 'reply_data':
+                    norm(s.value) in reply_vars:
                 idx_raw = i
             if idx_parse is None and any(
                     isinstance(c, ast.Call) and
